@@ -340,24 +340,20 @@ func c11valid(l, r *c11side, so gedcom.SimilarityOptions, res gedcom.IndividualC
 	return ""
 }
 
-// c11dupUID is the matcher of the known finding, stated on the input: two left individuals share a
-// unique identifier with the same right individual.
-func c11dupUID(l, r *c11side) bool {
-	taken := map[*gedcom.IndividualNode]bool{}
+// c11ambiguous: some left individual shares unique identifiers with two different right individuals;
+// which of them ByUniqueIdentifiers(...)[0] is depends on sync.Map iteration order, not on the
+// schedule, so runs of such a case are not compared with each other (each is checked for validity
+// and against the model's set of resolutions).
+func c11ambiguous(l, r *c11side) bool {
 	for _, a := range l.indis {
-		hit := map[*gedcom.IndividualNode]bool{}
+		n := 0
 		for _, b := range r.indis {
 			if a.UniqueIdentifiers().Intersects(b.UniqueIdentifiers()) {
-				hit[b] = true
+				n++
 			}
 		}
-		for b := range hit {
-			if taken[b] {
-				return true
-			}
-		}
-		for b := range hit {
-			taken[b] = true
+		if n > 1 {
+			return true
 		}
 	}
 	return false
@@ -422,19 +418,16 @@ func c11one(c *Ctx, idx int) {
 	} else {
 		c.Count("case:no-score-ties")
 	}
-	dup := c11dupUID(l, rt)
 	tab := func(xs []string) string {
 		if len(xs) == 0 {
 			return "_"
 		}
 		return strings.Join(xs, ";")
 	}
+	amb := c11ambiguous(l, rt)
 	ref := c11compare(l, rt, so, 1, 1)
 	refS := c11canon(ids, ref)
 	key := ""
-	if dup {
-		key = "c11-duplicate-unique-id"
-	}
 	check := func(res gedcom.IndividualComparisons, jobs, gmp int) {
 		c.Eval()
 		c.Count(fmt.Sprintf("run:jobs=%d", jobs))
@@ -442,7 +435,7 @@ func c11one(c *Ctx, idx int) {
 		if v := c11valid(l, rt, so, res); v != "" {
 			c.Oracle(key, "the result is not a valid one-to-one matching: "+c11class(v), in(jobs, gmp), v+" | result: "+c11canon(ids, res), "every individual in exactly one result")
 		}
-		if s := c11canon(ids, res); s != refS && !ties && !dup && !c11has(cs.kind, "ambiguous-unique-ids") {
+		if s := c11canon(ids, res); s != refS && !ties && !amb {
 			c.Oracle("", "without score ties the result differs from the sequential one", in(jobs, gmp), s, refS)
 		}
 	}
@@ -475,7 +468,7 @@ func c11one(c *Ctx, idx int) {
 	for _, k := range []int{0, 1, 2 + r.Intn(40)} {
 		c.Tie(fmt.Sprintf("%s %d", reqBase, k), refS)
 	}
-	if j2 <= 1 || (!ties && !dup) {
+	if j2 <= 1 || !ties {
 		c.Tie(fmt.Sprintf("match2%s 0", strings.TrimPrefix(reqBase, "match")), c11canon(ids, second))
 	}
 	c.Nontrivial(refS + "|" + o.wire())
